@@ -412,6 +412,11 @@ func cmdLitsNum(args []string) {
 		tw.Traces++
 	}
 	observeBulkNumbers(agg, vs)
+	{
+		n := min(len(vs), 300)
+		observeBulk(agg, "number in a Dict", n, func(i int) *jen.Statement { return jen.Lit(vs[i]) }, true)
+		observeBulk(agg, "number in a list", n, func(i int) *jen.Statement { return jen.Lit(vs[i]) }, false)
+	}
 	tw.Stats["values"] = len(vs)
 	tw.Stats["values_in_one_large_file"] = 2 * min(len(vs), 600)
 	tw.Stats["nontrivial"] = len(vs) - 2
@@ -638,6 +643,12 @@ func cmdLitsStr(args []string) {
 	})
 	observeBulkValues(agg, "rune", 300, func(i int) *jen.Statement { return jen.LitRune(rune(i*37%0x2fff + 1)) })
 	observeBulkValues(agg, "string", len(docs), func(i int) *jen.Statement { return jen.Lit(docs[i]) })
+	// ... and as the values of a Dict: texts that look like code around a pair (comment markers, commas, colons, braces)
+	codeLike := []string{"a // b", "x /* y */ z", "q, r", "end //", "k: v", "{", "}", "},", "// all of it", "a\n// b", "`", "\"", "tab\t// c", "https://example.com/a//b", ""}
+	observeBulk(agg, "string in a Dict", len(codeLike), func(i int) *jen.Statement { return jen.Lit(codeLike[i]) }, true)
+	observeBulk(agg, "string in a Dict", len(docs), func(i int) *jen.Statement { return jen.Lit(docs[i]) }, true)
+	observeBulk(agg, "byte in a Dict", 256, func(i int) *jen.Statement { return jen.LitByte(byte(i)) }, true)
+	observeBulk(agg, "rune in a Dict", 200, func(i int) *jen.Statement { return jen.LitRune(rune(i*53%0x2fff + 1)) }, true)
 	// the same literals rendered on several goroutines at once (every goroutine builds its own statements): the value
 	// of a literal must not depend on what other goroutines render meanwhile
 	{
@@ -725,15 +736,28 @@ func cmdLitsStr(args []string) {
 // observeBulkValues: many literals as the elements of ONE composite literal ([]interface{}{...}: no element type to lean
 // on).  Every element must denote the same typed value as the same literal rendered alone.
 func observeBulkValues(agg *sigAgg, kind string, n int, mk func(i int) *jen.Statement) {
+	observeBulk(agg, kind, n, mk, false)
+}
+
+// inDict: the literals are the VALUES of a Dict (keys k000, k001, ...) instead of the elements of a list
+func observeBulk(agg *sigAgg, kind string, n int, mk func(i int) *jen.Statement, inDict bool) {
 	differ, example := 0, ""
 	r := safely(func() ([]byte, error) {
-		items := []jen.Code{}
-		for i := 0; i < n; i++ {
-			items = append(items, mk(i))
-		}
 		f := jen.NewFile("main")
 		f.NoFormat = true
-		f.Var().Id("x").Op("=").Index().Interface().Values(items...)
+		if inDict {
+			d := jen.Dict{}
+			for i := 0; i < n; i++ {
+				d[jen.Lit(fmt.Sprintf("k%03d", i))] = mk(i)
+			}
+			f.Var().Id("x").Op("=").Map(jen.String()).Interface().Values(d)
+		} else {
+			items := []jen.Code{}
+			for i := 0; i < n; i++ {
+				items = append(items, mk(i))
+			}
+			f.Var().Id("x").Op("=").Index().Interface().Values(items...)
+		}
 		var buf bytes.Buffer
 		err := f.Render(&buf)
 		return buf.Bytes(), err
@@ -745,6 +769,9 @@ func observeBulkValues(agg *sigAgg, kind string, n int, mk func(i int) *jen.Stat
 			ast.Inspect(af, func(nd ast.Node) bool {
 				if cl, ok := nd.(*ast.CompositeLit); ok && len(got) == 0 {
 					for _, e := range cl.Elts {
+						if kv, isKV := e.(*ast.KeyValueExpr); isKV {
+							e = kv.Value // (pairs come out in key order: k000, k001, ...)
+						}
 						got = append(got, string(r.out[fset.Position(e.Pos()).Offset:fset.Position(e.End()).Offset]))
 					}
 					return false
@@ -769,7 +796,7 @@ func observeBulkValues(agg *sigAgg, kind string, n int, mk func(i int) *jen.Stat
 		}
 	}
 	prop := "C12"
-	if kind == "number" {
+	if strings.HasPrefix(kind, "number") {
 		prop = "C11"
 	}
 	agg.add("bulk"+kind+fmt.Sprint(differ > 0), Rec{"ev": "bulk", "kind": kind, "prop": prop, "n": n, "differ": differ, "example": example, "status": r.status})
@@ -807,6 +834,18 @@ func observeTagShared(agg *sigAgg, given map[string]string, shared bool) {
 		f.Type().Id("T").Struct(fields...)
 		var buf bytes.Buffer
 		err := f.Render(&buf)
+		if err == nil && !shared && len(given) >= 2 && tagObservations%3 == 0 {
+			// the field is rendered, the caller then REPLACES one key of its map by another one (same size), and the field
+			// is rendered again: the literal says what the map holds now
+			for k := range given {
+				delete(given, k)
+				delete(m, k)
+				break
+			}
+			given["zz.renamed"], m["zz.renamed"] = "r", "r"
+			buf.Reset()
+			err = f.Render(&buf)
+		}
 		return buf.Bytes(), err
 	})
 	st := r.status
